@@ -215,9 +215,13 @@ class Run(object):
             with open(tmp, "w") as f:
                 json.dump(ev, f, indent=1, sort_keys=True)
             os.replace(tmp, os.path.join(EVID, "%s.json" % self.prop))
-        for key, (what, n) in sorted(self.known_hits.items()):
-            print("KNOWN-FINDING: property=%s key=%s %s (witnesses this run: %d)"
-                  % (self.prop, key, what, n))
+        # one line for every listed finding of this property: witnessed in this run, or listed but not driven by this
+        # run's inputs (the list is the committed file; nothing is added to it at run time)
+        listed = {k[1]: v for k, v in self.known.items() if k[0] == self.prop and v.get("status") == "known"}
+        for key in sorted(set(listed) | set(self.known_hits)):
+            what, n = self.known_hits.get(key, (listed.get(key, {}).get("what", ""), 0))
+            print("KNOWN-FINDING: property=%s key=%s %s (witnesses this run: %d%s)"
+                  % (self.prop, key, what, n, "" if n else " - not driven by this run's inputs"))
         print("%s tier=%s seed=%d evaluations=%d distinct_nontrivial=%d wall=%.1fs"
               % (self.prop, self.tier, self.seed, self.evaluations,
                  len(self.nontrivial), wall))
